@@ -221,8 +221,12 @@ def gen_text(seed):
         return base * (2 + ch.below(5)) + ch.take(ch.below(6)).replace(b'\x00', b'z'), 'repeat'
     # update60 texts
     head = soup(ch)
-    tailkind = ch.below(5)
-    tail = [b'', b'\n', b' ', b'if(_update60)_update=function()', b'_update60()_update_buttons()'][tailkind]
+    tailkind = ch.below(9)
+    tail = [b'', b'\n', b' ', b'if(_update60)_update=function()', b'_update60()_update_buttons()',
+            # last lines of the author's own that look like the appended compatibility line but are not it
+            b'if(_update60)_update=function()_update60()end', b'x=1\nif(_update60)_update=function()_update60()end\n',
+            b'if(_update60)_update=function()_update60()_update60()_update60()end',
+            b'if(_update60)_update=function()_update_buttons()end'][tailkind]
     return head + b'function _update60()\nend\n' + tail, 'update60'
 
 
